@@ -445,6 +445,7 @@ type Contract struct {
 	AssumeEnsures  bool
 	Forbids        map[string]bool // "forbids <callee>...": the function never (reachably) calls these
 	MustCall       []string        // "calls <callee>...": every normal return is preceded by a call of each of these
+	ErrFrom        []string        // "errors-from <callee>...": every error the function returns was handed to it by one of these
 	AssumedClauses map[string]bool // "assumed <clause-name>...": these ensures clauses are definitions/assumptions, not proved
 	File           string
 	Requires       []Clause
@@ -732,6 +733,11 @@ func (S *Specs) LoadFile(path string, extern bool) error {
 			for _, n := range strings.Fields(strings.ReplaceAll(rest, ",", " ")) {
 				cur.Forbids[n] = true
 			}
+		case "errors-from":
+			if cur == nil {
+				return fail(fmt.Errorf("errors-from outside func"))
+			}
+			cur.ErrFrom = append(cur.ErrFrom, strings.Fields(strings.ReplaceAll(rest, ",", " "))...)
 		case "calls":
 			if cur == nil {
 				return fail(fmt.Errorf("calls outside func"))
